@@ -508,6 +508,13 @@ def exec_block(stmts, env, stop=None):
         if isinstance(st, ast.Assign) and len(st.targets) == 1:
             tg = st.targets[0]
             if env.get("__stmts__"):
+                if env.get("__selfstate__") and isinstance(tg, ast.Attribute) and isinstance(tg.value, ast.Name) \
+                        and tg.value.id == "self":
+                    try:
+                        env["self." + tg.attr] = ev(st.value, env)     # later reads find it by its text
+                    except Unknown:
+                        env.pop("self." + tg.attr, None)
+                    continue
                 if isinstance(tg, (ast.Attribute, ast.Subscript)):
                     continue        # state of the object itself is not followed
                 try:
